@@ -6,8 +6,10 @@ import dataclasses
 import difflib
 import functools
 import heapq
+import io
 import re
 import textwrap
+import tokenize
 from types import MappingProxyType
 from typing import (
     Any,
@@ -18,6 +20,7 @@ from typing import (
     Mapping,
     NamedTuple,
     Sequence,
+    Set,
     Tuple,
 )
 
@@ -363,6 +366,32 @@ def minimize_whitespace_line_differences(source: str, new_source: str) -> Tuple[
     return new_source, found, replaced
 
 
+def _lines_inside_string_literals(code: str) -> Set[int]:
+    """Find the lines of code that begin inside a (multiline or backslash-continued) string literal.
+
+    Args:
+        code (str): Python source code, not necessarily a complete statement
+
+    Returns:
+        Set[int]: Zero-based line numbers
+    """
+    linenos = set()
+    fstring_starts = []
+    try:
+        for token in tokenize.generate_tokens(io.StringIO(code).readline):
+            token_name = tokenize.tok_name[token.type]
+            if token_name == "FSTRING_START":
+                fstring_starts.append(token.start[0])
+            elif token_name == "FSTRING_END" and fstring_starts:
+                linenos.update(range(fstring_starts.pop(), token.end[0]))
+            elif token_name == "STRING":
+                linenos.update(range(token.start[0], token.end[0]))
+    except (tokenize.TokenError, SyntaxError):
+        pass  # code is not necessarily valid python syntax in all cases
+
+    return linenos
+
+
 def _do_rewrite(source: str, rewrite: _Rewrite, *, fix_function_name: str = "") -> str:
     old, new = rewrite
     start, end = _get_charnos(rewrite, source)
@@ -432,19 +461,9 @@ def _do_rewrite(source: str, rewrite: _Rewrite, *, fix_function_name: str = "") 
     indent = getattr(old, "col_offset", getattr(new, "col_offset", 0))
     indents = {**{i: indent for i in range(len(lines))}, 0: len(code) - len(code.lstrip(" "))}
 
-    try:
-        new_code_ast = core.parse(new_code)
-    except SyntaxError:
-        pass  # new_code is not necessarily valid python syntax in all cases
-    else:
-        for node in core.walk(new_code_ast, (ast.Constant(value=str), ast.JoinedStr)):
-            node_code = core.get_code(node, new_code)
-            if any(
-                node_code.startswith(prefix) and node_code.endswith(prefix[-3:])
-                for prefix in ("b'''", "r'''", "f'''", "'''", 'b"""', 'r"""', 'f"""', '"""')
-            ):
-                for lineno in range(node.lineno, node.end_lineno):
-                    indents[lineno] = 0
+    # Lines that begin inside a string literal are content, not code: never indent them
+    for lineno in _lines_inside_string_literals(new_code):
+        indents[lineno] = 0
 
     new_code = "".join(
         f"{' ' * indents[i]}{code}".rstrip() + ("\n" if code.endswith("\n") else "")
